@@ -107,7 +107,7 @@ RAW = [(0, 0), (-1, 2 ** 64 - 1), (3600000000, 2 ** 63), (-2082844800, 1), (3786
 
 
 def part_b(_item):
-    from nptdms import TdmsWriter, ChannelObject, RootObject
+    from nptdms import TdmsWriter, ChannelObject, RootObject, GroupObject
     from nptdms.timestamp import TdmsTimestamp, TimestampArray
     res = {'counters': {'cases': 0}, 'violations': []}
     raw_le = [struct.pack('<Qq', f, s) for s, f in RAW]
@@ -242,6 +242,40 @@ def part_b(_item):
                 if len(conv) != n or conv != items:
                     bad('view-conversion', '%s (%s, %s): array conversion == scalar conversions of its %d items' % (name, unit, order, n),
                         'array gives %d values %s, items give %s' % (len(conv), conv[:3], items[:3]))
+                    break
+    # a datetime property reads back as datetime64[us] through every way of consulting the properties dictionary of the file,
+    # group and channel objects, whichever is used first (read, open, read_metadata)
+    when = [np.datetime64('2021-03-04T05:06:07.250000', 'us'), np.datetime64('1899-12-31T23:59:59.500000', 'us')]
+    out = io.BytesIO()
+    with TdmsWriter(out) as w:
+        w.write_segment([RootObject({'t0': when[0], 't1': when[1]}), GroupObject('g', {'t0': when[0], 't1': when[1]}),
+                         ChannelObject('g', 'c', np.arange(3, dtype=np.int32), {'t0': when[0], 't1': when[1]})])
+    pdata = out.getvalue()
+    accessors = [('[]', lambda p, k: p[k]), ('get', lambda p, k: p.get(k)), ('items', lambda p, k: dict(p.items())[k]),
+                 ('values', lambda p, k: list(p.values())[list(p.keys()).index(k)]), ('dict', lambda p, k: dict(p)[k]),
+                 ('copy', lambda p, k: p.copy()[k] if hasattr(p, 'copy') else p[k])]
+    for how in ('read', 'open', 'read_metadata'):
+        for first, acc in accessors:
+            def look():
+                tf = getattr(H.TdmsFile, how)(io.BytesIO(pdata))
+                try:
+                    got = []
+                    for obj in (tf, tf['g'], tf['g']['c']):
+                        for k in ('t0', 't1'):
+                            got.append(acc(obj.properties, k))
+                    return got
+                finally:
+                    if how == 'open':
+                        tf.close()
+            r = H.guarded(look)
+            res['counters']['cases'] += 1
+            if r[0] != 'ok':
+                bad('prop-access-raised', 'property access through %s after TdmsFile.%s' % (first, how), repr(r)[:200])
+                continue
+            for j, g in enumerate(r[1]):
+                if not (isinstance(g, np.datetime64) and g.dtype == np.dtype('datetime64[us]') and g == when[j % 2]):
+                    bad('prop-access', 'datetime64[us] %s through %s as first access after TdmsFile.%s' % (when[j % 2], first, how),
+                        '%r (%s)' % (g, type(g).__name__))
                     break
     # a naive datetime.datetime names the same instant whatever the local time zone of the process is
     import datetime
